@@ -2061,8 +2061,26 @@ BTree_pop(BTree *self, PyObject *args)
     /* No default given.  The only difference in this case is the error
     * message, which depends on whether the tree is empty.
     */
-    if (BTree_length_or_nonzero(self, 1) == 0) /* tree is empty */
-        PyErr_SetString(PyExc_KeyError, "pop(): BTree is empty");
+    {
+        /* Looking at the tree may load ghost nodes, i.e. run Python code,
+        * which must not happen while the KeyError is still set.
+        */
+        PyObject *et, *ev, *tb;
+        int nonzero;
+
+        PyErr_Fetch(&et, &ev, &tb);
+        nonzero = BTree_length_or_nonzero(self, 1);
+        if (nonzero > 0)
+            PyErr_Restore(et, ev, tb);
+        else
+        {
+            Py_XDECREF(et);
+            Py_XDECREF(ev);
+            Py_XDECREF(tb);
+            if (nonzero == 0) /* tree is empty */
+                PyErr_SetString(PyExc_KeyError, "pop(): BTree is empty");
+        }
+    }
     return NULL;
 }
 
